@@ -116,7 +116,7 @@ def parse_model_output(lines):
             res[m[1]] = (parse_model_line(m[2]), None if m[3].strip() == '-' else parse_model_line(m[3]))
         elif ln.startswith('C '):
             p = ln.split()
-            res['C:' + p[1]] = [x == '1' for x in p[2:6]]
+            res['C:' + p[1]] = [x == '1' for x in p[2:7]]
     return res
 
 
